@@ -30,6 +30,7 @@ type Clnt struct {
 	tagpool  *Pool
 	reqout   chan *Req
 	done     chan bool
+	closed   chan bool // closed once the send goroutine has exited
 	reqfirst *Req
 	reqlast  *Req
 	err      error
@@ -108,7 +109,11 @@ func (clnt *Clnt) Rpcnb(r *Req) error {
 	clnt.reqlast = r
 	clnt.Unlock()
 
-	clnt.reqout <- r
+	select {
+	case clnt.reqout <- r:
+	case <-clnt.closed:
+		/* the send goroutine is gone; recv fails the request through r.Done */
+	}
 	return nil
 }
 
@@ -237,7 +242,12 @@ func (clnt *Clnt) recv() {
 	}
 
 closed:
+	/* stop the send goroutine (it is never stopped in the middle of a request),
+	 * then release the callers that are waiting to hand it one */
 	clnt.done <- true
+	if clnt.closed != nil {
+		close(clnt.closed)
+	}
 
 	/* send error to all pending requests */
 	clnt.Lock()
@@ -329,6 +339,7 @@ func NewClnt(c net.Conn, msize uint32, dotu bool) *Clnt {
 	clnt.tagpool = NewPool(0, uint32(NOTAG))
 	clnt.reqout = make(chan *Req)
 	clnt.done = make(chan bool)
+	clnt.closed = make(chan bool)
 	clnt.reqchan = make(chan *Req, 16)
 	clnt.tchan = make(chan *Fcall, 16)
 
